@@ -255,6 +255,20 @@ def query_entries(fl, f, join_call, node):
                 conds += edge_facts(cc, True)
             if ent:
                 out.append((ent[0], ent[1], conds))
+        # entries added to the same list afterwards:  L.extend((e1, e2)) / L.append(e)
+        if isinstance(arg, ast.Name):
+            for n, c in calls_in(fl):
+                if call_name(c) in ("extend", "append") and isinstance(c.func, ast.Attribute) and dotted(c.func.value) == arg.id and c.args and node in fl.cfg.reach(n):
+                    xs = fl.expand(c.args[0], n)
+                    items = list(xs.elts) if call_name(c) == "extend" and isinstance(xs, (ast.Tuple, ast.List)) else ([xs] if call_name(c) == "append" else None)
+                    if items is None:
+                        raise AnalysisError(f"{f.qual}: query argument not recognised: {src(c, 80)}")
+                    conds = [(fl.expand(t.expr, t), lab) for t, lab in fl.cfg.edges_dominating(n) if t.kind == "test" and isinstance(t.stmt, ast.If)]
+                    for it_ in items:
+                        ent = _entry(it_)
+                        if ent is None:
+                            raise AnalysisError(f"{f.qual}: query argument not recognised: {src(it_, 80)}")
+                        out.append((ent[0], ent[1], [x for e_, lab in conds for x in edge_facts(e_, lab)]))
         return out
     if isinstance(arg, ast.Name):
         nm = arg.id
